@@ -301,7 +301,7 @@ func (c *stepCtx) judge() {
 		// (not for pause: it legitimately writes once per tick, a crash in a later tick — e.g. on
 		// a file somebody else damaged meanwhile — does not undo the earlier ticks)
 		if c.sc.Property == "C05" && op.mutating() && op.Kind != "pause" && c.midEdit == nil && c.before[c.target] != c.after[c.target] {
-			c.report("C05", "crash-after-write", res.PanicSite, "klog crashed after changing the file")
+			c.report("C05", "crash-after-write", res.PanicSite, "klog crashed after changing the file: "+res.PanicValue)
 		}
 		return
 	}
